@@ -37,22 +37,33 @@ RULE = ("(i) every sub-databox of <= 3 items of a pool of 17 series (all six fre
         "(iii) BFS over operation histories from 3 initial databoxes, alphabet of overlay / underlay / clip / "
         "prepend / copy / shallow / rename / keep / remove / merge / `|` with list, str, predicate and renaming-"
         "function selections; a state is the canonical (name -> item) map incl. stored spans; every transition is "
-        "compared with the dict reference")
+        "compared with the dict reference; non-trivial = distinct (operation kind, resulting state) of transitions "
+        "that select at least one name or build a new databox")
 MANIFEST_ENTRY = dict(
     level="model_checking", design="DESIGN.md section 4 / C19",
     technique="explicit-state BFS over Databox operation histories vs plain-dict reference + exhaustive enumeration "
               "of CSV and Dataslate round trips",
-    text="CSV: every sub-databox of <= 3 of 19 pool items x description_row x round x names/span/frequency_span "
-         "selections is written, read back and compared (names, descriptions, frequencies, spans, variant counts, "
-         "values to the declared rounding). Dataslate: every name selection x span position x num_variants x "
-         "fallbacks x overwrites (and the Slatable route) is converted and converted back, compared cell by cell "
-         "with 'input on the span, NaN elsewhere, filled only by fallbacks/overwrites, exhaust-then-last variants'. "
-         "Databox operations: BFS depth 3 (quick) / 4 (thorough) over 40-60 operations from 3 initial boxes, every "
-         "transition compared with a dict reference, untouched names bitwise unchanged, copies isolated.",
-    note="Trusted: ref/c19box.py (dict reference), Python csv is NOT used by the oracle (the file is only read back "
-         "by irispie). Not covered: date_formatter / delimiter / numeric_format options, start_period_only, "
-         "name_row_transform, renames whose targets collide (only the pure swap is asserted), strict_names "
-         "rejection, databoxes of more than 3 items in the CSV part.")
+    text="CSV: every sub-databox of <= 3 (quick, 1159 boxes, 26.8k files) / <= 4 (thorough, 5035 boxes, 160k files) of "
+         "19 pool items (17 series over all six frequencies, 1 and 3 variants, all missing-value patterns, awkward "
+         "descriptions, one empty series; a scalar; a list) x description_row x round in {12,3} x names / span / "
+         "frequency_span selections is written with to_csv_file, read back with from_csv_file and compared: names, "
+         "descriptions, frequencies, spans, variant counts, missing pattern, values to the declared rounding. "
+         "Dataslate: every selection of <= 3 of 7 names x 8 span positions x num_variants 1..3 x 3 fallbacks x 2 "
+         "overwrites (plain route) and lag x lead x prepend x append x clip x base span x output names x full/base "
+         "(Slatable route), for 3 (quick, 30k conversions) / 6 (thorough, 111k) frequencies, compared cell by cell "
+         "with 'input on the span, NaN elsewhere, filled only by fallbacks/overwrites, exhaust-then-last variants' "
+         "both on the slate array and after to_databox. Databox operations: BFS from 3 initial boxes over 42 (quick, "
+         "depth 3: 12k states, 50k transitions) / 75 operations (thorough, depth 4 with the 42 core operations as "
+         "fourth step: 222k states, 1.05M transitions); every transition is compared item by item with the dict "
+         "reference (values, stored spans, variants, descriptions), untouched names must be the same objects with "
+         "the same bits, operands unchanged, copies share nothing with the original.",
+    note="Trusted: ref/c19box.py (plain-dict reference of Series overlay/underlay/clip/hstack and the Databox methods, "
+         "written from the docstrings), ref/calendar.py. The oracle never parses the CSV file itself. Not covered: "
+         "date_formatter / delimiter / numeric_format / start_period_only / name_row_transform options, hand-written "
+         "CSV files, renames whose targets collide (only the pure swap is asserted), strict_names rejection, "
+         "databoxes of more than 3 (4) items in the CSV part, histories longer than 3 (4) operations. Two known "
+         "findings (known_findings.d/c19.json): IndexError when reading a file written from only-empty series; "
+         "description dropped for a series without observation on the exported span.")
 ASSUMPTIONS = [
     "values are compared to the declared rounding: |read - written| <= 0.5*10**-round + 4 ulp",
     "descriptions are only asserted when description_row=True on both sides",
@@ -935,10 +946,13 @@ class BoxMachine:
                 bad("copy_isolation", "mutating the copy changed the original")
         if (tuple(hist[1:]) + (op,)) in SHOWCASE:
             res.sample({"part": "ops", "history": case["history"], "resulting_names": sorted(exp)})
-        res.nt(("ops", op[0], engine.sigkey(canon_small(exp_canon))))
         res.cls("ops_outcome", (op[0], tuple(sorted(touched)) != (), len(exp) - len(ref)))
-        if wrong == [] and touched:
+        if touched or set(exp) != set(ref) or op[0] in NEW_BOX_OPS:
+            # non-trivial: the operation selects at least one name (or builds a new databox)
+            res.nt(("ops", op[0], canon_small(exp_canon)))
             res.count("transitions_that_change_something")
+        else:
+            res.count("transitions_selecting_nothing")
         return R.canon_box(exp)
 
 
